@@ -12,7 +12,7 @@ from ..aggen import node, structural_problems
 PROPERTY = 'C13'
 RULE = ('labelled attack graphs: hand-built graphs with arbitrary viability / necessity labels (runs of prunable '
         'nodes adjacent in the node list, prunable nodes linked to each other, attackers on prunable nodes), '
-        'graphs labelled by the analyser, and exhaustively all label assignments on all 3-node graphs over a '
+        'graphs labelled by the analyser (hand-built and generated from G_lang x G_model with attached attackers), and exhaustively all label assignments on all 3-node graphs over a '
         '5-variant alphabet x all 2^9 edge sets. Oracle: after pruning the remaining node set is exactly '
         '{n : not (type in {or,and} and (not viable or not necessary))}, labels of the remaining nodes are '
         'unchanged and the structural invariants I1-I3 of C09 hold. Non-trivial: >=2 prunable nodes adjacent in '
@@ -23,7 +23,26 @@ ASSUMPTIONS = []
 def check_case(case) -> Outcome:
     from maltoolbox.attackgraph.analyzers import apriori
     out = Outcome()
-    g, objs, atts = aggen.build(case['graph'])
+    if 'graph' in case:
+        g, objs, atts = aggen.build(case['graph'])
+        edges = case['graph']['edges']
+        att_reached = [i for a in case['graph']['attackers'] for i in a['reached']]
+    else:
+        # a graph generated from a language and a model, attackers attached
+        from .c01 import generate_graph
+        lg, model, mobjs, g, err, msg = generate_graph(case['spec'], case['model'])
+        if err:
+            out.classes.append('skipped:' + err)
+            return out
+        try:
+            g.attach_attackers()
+        except Exception as e:
+            out.classes.append('skipped:attach:' + type(e).__name__)
+            return out
+        objs = list(g.nodes)
+        idx = {id(n): i for i, n in enumerate(objs)}
+        edges = [[idx[id(n)], idx[id(c)]] for n in objs for c in n.children]
+        att_reached = [idx[id(n)] for a in g.attackers for n in a.reached_attack_steps]
     if case.get('analyse'):
         try:
             apriori.calculate_viability_and_necessity(g)
@@ -35,11 +54,11 @@ def check_case(case) -> Outcome:
     pos = {id(n): i for i, n in enumerate(order)}
     flags = [prunable[objs.index(n)] for n in order]
     adjacent = any(flags[i] and flags[i + 1] for i in range(len(flags) - 1))
-    linked = any(prunable[i] and prunable[j] and i != j for i, j in case['graph']['edges'])
+    linked = any(prunable[i] and prunable[j] and i != j for i, j in edges)
     out.nontrivial = adjacent or linked
     out.classes += [c for c, f in (('adjacent-prunable', adjacent), ('linked-prunable', linked),
                                    ('nothing-prunable', not any(prunable)),
-                                   ('attacker-on-prunable', any(prunable[i] for a in case['graph']['attackers'] for i in a['reached']))) if f]
+                                   ('attacker-on-prunable', any(prunable[i] for i in att_reached))) if f]
     labels = {id(n): (n.is_viable, n.is_necessary) for n in objs}
     removed_ids = {n.id for n, p in zip(objs, prunable) if p}
     removed_names = {n.full_name for n, p in zip(objs, prunable) if p}
@@ -82,6 +101,15 @@ def analysed_cases(draw):
     return {'graph': g, 'analyse': True}
 
 
+@st.composite
+def generated_cases(draw):
+    from ..modelgen import lang_and_model
+    c = draw(lang_and_model({'max_assets': 4, 'max_expr_depth': 2, 'arith_ttc': False},
+                            {'max_assets': 5, 'attackers': True, 'min_assets': 1}))
+    c['analyse'] = True
+    return c
+
+
 def _enum(tier):
     variants = [node('or', viable=True, necessary=True), node('or', viable=False, necessary=True),
                 node('and', viable=True, necessary=False), node('defense', 0.0, viable=True, necessary=True),
@@ -109,4 +137,5 @@ CLAUSES = [
            space='all 3-node graphs over 5 labelled node variants x all 2^9 edge sets, one attacker on all nodes (quick tier: every 4th graph)'),
     Clause('random-labels', check_case, kind='random', strategy=cases, budget={'quick': 8000, 'thorough': 80000}),
     Clause('analysed-graphs', check_case, kind='random', strategy=analysed_cases, budget={'quick': 4000, 'thorough': 30000}),
+    Clause('generated-graphs', check_case, kind='random', strategy=generated_cases, budget={'quick': 1500, 'thorough': 15000}),
 ]
